@@ -22,7 +22,7 @@ RULE = (
 )
 ASSUMPTIONS = [
     "CPython 3.12 builtins/functools/heapq are the reference",
-    "floats and Fractions are dyadic so all sums are exact; no NaN, no partial orders",
+    "floats and Fractions are dyadic so all sums are exact, except the 'inexact' profile of sum (known finding sum-float-compensation); no NaN, no partial orders",
     "sum(start=str/bytes) and dict(mapping) are outside the quantifier and not generated",
 ]
 
@@ -51,6 +51,8 @@ def check(case):
             kind = "wrong-exception"
         else:
             kind = "raises-vs-returns"
+        if tool == "sum" and kind == "wrong-result" and case.get("profile") == "inexact":
+            kind = "inexact-float-sum-differs"
         raise Violation(f"C02/{tool}/{kind}", f"async={x} stdlib={y}")
     # mutation oracle
     v = (case.get("params") or {}).get("v") or {}
@@ -74,6 +76,12 @@ def check(case):
         for args in ba.fns["key"].seen_args:
             if any(a is default for a in args):
                 raise Violation(f"C02/{tool}/key-applied-to-default", "")
+
+
+# known findings that are excluded by construction once reported (see known_findings.json)
+EXCLUSIONS = {
+    "sum-float-compensation": lambda case: case["tool"] == "sum" and case.get("profile") == "inexact",
+}
 
 
 def nontrivial(case):
